@@ -108,8 +108,14 @@ def run(ctx):
     for p in smc.paths:
         if p.kind == "return":
             v = p.value
-            if not (is_call(v, "dynamic") and len(v[2]) == 2 and v[2][0] == ("attr", v[2][1], "func")):
-                okc = False
+            if is_call(v, "dynamic") and len(v[2]) == 2 and v[2][0] == ("attr", v[2][1], "func"):
+                continue
+            # a non-zero constant instead, on a path on which the handler did not return (its call
+            # raised and the exception was dealt with here): a failure status for a failed command
+            handler_calls = [ev for ev in flat(p) if ev[0] == "call" and ev[2] == "dynamic" and ev[3] and isinstance(ev[3][0], tuple) and ev[3][0][:1] == ("attr",) and ev[3][0][2:] == ("func",)]
+            if is_const(v) and isinstance(v[2], int) and not isinstance(v[2], bool) and v[2] != 0 and handler_calls and all(ev[5][0] == "raise" for ev in handler_calls):
+                continue
+            okc = False
     ctx.ob("R2", "cli-returns-handler-result", fn_site(eng, smc).loc(), "cli() %s" % ("returns args.func(args) unchanged on every path" if okc else "does not return the handler's result unchanged"), okc)
     for name, sub in sorted(subs.items()):
         ctx.count("R2.registry")
@@ -164,10 +170,27 @@ def run(ctx):
             continue
         sms = eng.walk(q)
         rets = [p for p in sms.paths if p.kind == "return"]
-        nowrite = [p for p in rets if not any(ev[0] == "call" and ev[2] == "repo:common.write_metadata_to_file" and ev[5][0] == "ok" for ev in flat(p))]
+        nowrite = [p for p in rets if not any(ev[0] == "call" and ev[2] == "repo:common.write_metadata_to_file" and ev[5][0] == "ok" for ev in flat(p)) and not _nothing_to_sign(eng, sms, p)]
         ctx.count("R4.signers")
         ctx.ob("R4", "returns-only-after-writing|%s" % q, fn_site(eng, sms).loc(), "%s %s" % (q, "returns normally only after write_metadata_to_file succeeded (%d returning paths)" % len(rets) if rets and not nowrite else "can return normally without having written its output (%d of %d returning paths): the command would report success although nothing was signed" % (len(nowrite), len(rets))), bool(rets) and not nowrite)
     ctx.floor("R4.signers", 2)
+
+
+def _nothing_to_sign(eng, sms, p):
+    """a repodata signer that returns without writing on a path on which every artifact section
+    of the loaded document is empty or absent: there was nothing to sign"""
+    if sms.fi.qualname != "signing.sign_all_in_repodata" or not sms.params:
+        return False
+    L = eng.expand(eng.repo_call("common.load_metadata_from_file", P(sms.params[0])))
+    st = State(facts=p.facts)
+
+    def empty(sec, optional):
+        d = SubC(L, sec)
+        if optional and st.holds(("nothas", L, C(sec))):
+            return True
+        return st.truth_value(d) is False or st.holds(("falsy", d)) or st.holds(("eq", ("call", "builtin:len", (d,), ()), C(0)))
+
+    return empty("packages", False) and empty("packages.conda", True)
 
 
 def _entry_points(ctx):
